@@ -175,9 +175,11 @@ func catalogCheck(args []string) (any, error) {
 			bad = append(bad, fmt.Sprintf("datetime %v: standard library %q, catalog %q", d, got, d.Out))
 		}
 	}
-	o := obfuscate.NewObfuscator(obfuscate.Config{})
 	for _, q := range c.SQL {
 		n++
+		// a fresh obfuscator per entry: the engine remembers how it last read backslashes in string literals, and the reference
+		// meaning of sql_cover is that of a fresh engine on every call
+		o := obfuscate.NewObfuscator(obfuscate.Config{})
 		r, err := o.ObfuscateSQLString(q.Q)
 		got := ""
 		if err == nil {
